@@ -525,8 +525,21 @@ func (conn *Conn) String() string {
 // retain keeps a newly created fid in the table once the request that created it
 // has succeeded; from now on other requests may use it.
 func (fid *SrvFid) retain() {
+	closed := false
+	if fid.Fconn != nil && fid.Fconn.done != nil {
+		select {
+		case <-fid.Fconn.done:
+			// the connection went away while the fid was being created: nobody
+			// can clunk it, so the creating request's DecRef destroys it
+			closed = true
+		default:
+		}
+	}
+
 	fid.Lock()
-	fid.refcount++
+	if !closed {
+		fid.refcount++
+	}
 	fid.pending = false
 	fid.Unlock()
 }
